@@ -710,6 +710,40 @@ class Models:
     def int_bit_length(self, ip, o):
         raise Unsupported('bit_length of symbolic int')
 
+    _WS = ' \t\n\r\x0b\x0c'
+
+    def _strip(self, ip, s, chars, left, right):
+        """s == l ++ r ++ t with l, t made of `chars` only and r not starting / ending with one of them"""
+        if chars is None:
+            chars = self._WS
+        if not isinstance(chars, str) or not chars:
+            raise Unsupported('strip with a symbolic or empty character set')
+        cls = z3.Star(z3.Union(*[z3.Re(z3.StringVal(c)) for c in chars])) if len(chars) > 1 else z3.Star(z3.Re(z3.StringVal(chars)))
+        ctx = ip.ctx
+        r = ctx.fresh('stripped', z3.StringSort())
+        l = ctx.fresh('lead', z3.StringSort()) if left else z3.StringVal('')
+        t = ctx.fresh('trail', z3.StringSort()) if right else z3.StringVal('')
+        ctx.assume(s.e == z3.Concat(l, r, t))
+        for c in chars:
+            if left:
+                ctx.assume(z3.Not(z3.PrefixOf(z3.StringVal(c), r)))
+            if right:
+                ctx.assume(z3.Not(z3.SuffixOf(z3.StringVal(c), r)))
+        if left:
+            ctx.assume(z3.InRe(l, cls))
+        if right:
+            ctx.assume(z3.InRe(t, cls))
+        return SStr(r)
+
+    def str_strip(self, ip, s, chars=None):
+        return self._strip(ip, s, chars, True, True)
+
+    def str_rstrip(self, ip, s, chars=None):
+        return self._strip(ip, s, chars, False, True)
+
+    def str_lstrip(self, ip, s, chars=None):
+        return self._strip(ip, s, chars, True, False)
+
     def str_startswith(self, ip, s, p):
         return SBool(z3.PrefixOf(zs(p), zs(s)))
 
@@ -1015,11 +1049,23 @@ class Models:
             if key is None:
                 return ek.unwrap(ek.wrap(e)) if ek is INT_EK else e
             v = ip.call(key, [ek.wrap(e)], {})
+            if isinstance(v, (tuple, list)):
+                return [zr(x) if isinstance(x, (SReal, float)) else zi(x) for x in v]      # compared lexicographically
             return zr(v) if isinstance(v, (SReal, float)) else zi(v)
+
+        def le(a, b):
+            if not isinstance(a, list):
+                return a <= b
+            if len(a) != len(b):
+                raise Unsupported('sort keys of different tuple lengths')
+            out = z3.BoolVal(True)
+            for x, y in reversed(list(zip(a, b))):
+                out = z3.Or(x < y, z3.And(x == y, out))
+            return out
         ctx.assume(z3.Length(B) == n)
         ctx.assume(dsl.All(0, n, lambda i: z3.And(0 <= PI(i), PI(i) < n, PIinv(PI(i)) == i, B[PI(i)] == A[i])))
         ctx.assume(dsl.All(0, n, lambda j: z3.And(0 <= PIinv(j), PIinv(j) < n, PI(PIinv(j)) == j)))
-        ctx.assume(dsl.All(0, n - 1, lambda j: keyof(B[j]) <= keyof(B[j + 1])))
+        ctx.assume(dsl.All(0, n - 1, lambda j: le(keyof(B[j]), keyof(B[j + 1]))))
         ctx.__dict__.setdefault('trace', []).append(('sort', A, B, key))
         c.v = SSeq(B, c.pycls, ek)
 
